@@ -195,8 +195,8 @@ def run(case):
     spec = case['catch']
     caught = W.catch_spec_types(spec)
     violations, probes = [], {}
-    with warnings.catch_warnings():
-        warnings.simplefilter('ignore')
+    with warnings.catch_warnings(record=True):
+        warnings.simplefilter('always')    # recorded, not printed; never 'ignore': dependencies inspect warnings
         # --- reference: position by position on an independent build
         ctx = W.set_ctx(W.Ctx(faults=case['faults']))
         ref_build = W.build(desc)
